@@ -275,6 +275,17 @@ def memLeaf (d : Nat) (hs : List Nat) : Option (Option (H2C × Colors)) :=
     | none => none
     | some r => some (some r)
 
+/-- mem `map_hashes_colors` with `queries = Some(qs)`: with `threshold == 0` the sketch is intersected
+with the merged query once; otherwise with every query in turn, each non-empty intersection going
+through `add_to` on the same maps (the `|| intersection > threshold` disjunct never filters) -/
+def memLeafQueries (d : Nat) (D : List Nat) (qs : List (List Nat)) (threshold : Nat) : Option (Option (H2C × Colors)) :=
+  let common (q : List Nat) : List Nat := q.filter (fun h => D.contains h)
+  let parts := if threshold = 0 then [common (insertAll [] qs.flatten)] else qs.map common
+  match foldOpt (fun (acc : H2C × Colors) (part : List Nat) =>
+      if part.isEmpty then some acc else addTo acc.1 acc.2 d part) ([], Colors.empty) parts with
+  | none => none
+  | some r => if r.1.isEmpty then some none else some (some r)
+
 /-- shape of rayon's `reduce(identity, op)` over the per-dataset leaves -/
 inductive RTree where
   | ident
@@ -292,6 +303,19 @@ def RTree.eval (C : List (List Nat)) : RTree → Option (H2C × Colors)
     | some (some r) => some r
   | .node l r =>
     match l.eval C, r.eval C with
+    | some a, some b => reduceHC a b
+    | _, _ => none
+
+/-- the same with the leaves of `memLeafQueries` -/
+def RTree.evalQ (C : List (List Nat)) (qs : List (List Nat)) (threshold : Nat) : RTree → Option (H2C × Colors)
+  | .ident => some ([], Colors.empty)
+  | .leaf d =>
+    match memLeafQueries d (C.getD d []) qs threshold with
+    | none => none
+    | some none => some ([], Colors.empty)
+    | some (some r) => some r
+  | .node l r =>
+    match l.evalQ C qs threshold, r.evalQ C qs threshold with
     | some a, some b => reduceHC a b
     | _, _ => none
 
